@@ -458,6 +458,22 @@ func c12Oracle(w *c12World, x *vsched.Execution, o *c12Outcome) {
 			o.Instances = append(o.Instances, fmt.Sprintf("final-sync-attempts=%d", attempts))
 		}
 	}
+	if live != nil {
+		for _, op := range sc.Suffix {
+			var res string
+			if !withTimeout(20*time.Second, func() { res = w.Op(-1, op) }) {
+				add("suffix-op-hangs", op, "sequential "+op+" after the concurrent phase did not return in 20s")
+				return
+			}
+			if strings.HasPrefix(res, "err:") {
+				add("suffix-op-failed", op+":"+res, "sequential "+op+" after the concurrent phase: "+res)
+				return
+			}
+		}
+		if len(sc.Suffix) > 0 {
+			s.RecordLedgerNow()
+		}
+	}
 	// The C01/C02/snapshot verdicts are functions of the decoded replica files, the ledger and
 	// the source image: executions that end in the same state share one evaluation.
 	key := c12StateKey(s, live != nil)
@@ -482,6 +498,17 @@ func c12Oracle(w *c12World, x *vsched.Execution, o *c12Outcome) {
 		}
 		// (f) snapshot content == the position it advertises (through level-0 files alone)
 		c12SnapshotOracle(s, padd)
+		// (g) every compaction level is one gapless, non-overlapping sequence of TXID ranges
+		for lvl, fs := range scn.AllLevels(s.ReplicaDir) {
+			if lvl == 0 || lvl == litestream.SnapshotLevel {
+				continue
+			}
+			for i := 1; i < len(fs); i++ {
+				if fs[i].Min != fs[i-1].Max+1 {
+					padd("level-not-contiguous", fmt.Sprintf("L%d", lvl), fmt.Sprintf("level %d: %s follows %s (gap or overlap)", lvl, fs[i], fs[i-1]))
+				}
+			}
+		}
 		if key != "" {
 			c12OracleCache[key] = probs
 		}
